@@ -17,9 +17,11 @@
   defects: (1) limitQueries tested the limit before the window, (2) skipped a whole time group when its first
   and last row were outside the window, (3) answered `len(rowsByTime) > 0` for a limit ≤ 0, and (4) the NaN
   padding appended one NaN per handler-what instead of one per column.
-  Two more defects of the old code are not kept as variants (they are not expressible in this state space):
-  the row marker `rowRepr.Tags` of all rows created from one storage answer shared one backing array, and
-  appendRowValues indexed `qry` with the column index (index out of range for more than 7 columns).
+  The shared `rowRepr.Tags` backing array of the old code is modelled separately at the end of this file
+  (`passBatches`, `aliasedTags`, `getTableAliased`). Not modelled: appendRowValues of the old code indexed `qry` with
+  the column index (index out of range for more than 7 columns in one handler-what).
+  `handleGetTable` / `Caller` model the order in which handler.go hands the LODs of GetLODs to getTableFromLODs:
+  `Caller.keeps` after /verif/fixes/C25-descending-lod-order.diff, `Caller.reversesFromEnd` before it.
 -/
 namespace SH.Table
 
